@@ -66,10 +66,19 @@ theorem setAlpha_sim (a : Nat) (w : PW ν) : PSim (setAlpha a) w [] := by
   unfold PSim setAlpha
   split <;> simp [pdfRun, pdfStep, gOf]
 
-theorem setFill_sim (p : Paint) (hp : p ≠ .none) (w : PW ν) : PSim (setFill p) w [] := by
-  unfold PSim setFill
+theorem gradAlpha_sim (p : Paint) (w : PW ν) : PSim (gradAlpha p) w [] := by
+  cases p with
+  | grad i => exact setAlpha_sim 255 w
+  | none => simp [PSim, gradAlpha, say, pdfRun]
+  | col c => simp [PSim, gradAlpha, say, pdfRun]
+
+theorem setFillCore_sim (p : Paint) (hp : p ≠ .none) (w : PW ν) : PSim (setFillCore p) w [] := by
+  unfold PSim setFillCore
   split
-  · simp [pdfRun]
+  · cases p with
+    | none => exact absurd rfl hp
+    | grad i => simp [pdfRun]
+    | col c => exact setAlpha_sim c.a w
   · cases p with
     | none => exact absurd rfl hp
     | grad i => simp [pdfRun, pdfStep, gOf, shadeOf]
@@ -77,16 +86,29 @@ theorem setFill_sim (p : Paint) (hp : p ≠ .none) (w : PW ν) : PSim (setFill p
       simp only [setAlpha]
       split <;> split <;> simp_all [pdfRun, pdfStep, gOf, shadeOf] <;> omega
 
-theorem setStroke_sim (p : Paint) (hp : p ≠ .none) (w : PW ν) : PSim (setStroke p) w [] := by
-  unfold PSim setStroke
+theorem setStrokeCore_sim (p : Paint) (hp : p ≠ .none) (w : PW ν) : PSim (setStrokeCore p) w [] := by
+  unfold PSim setStrokeCore
   split
-  · simp [pdfRun]
+  · cases p with
+    | none => exact absurd rfl hp
+    | grad i => simp [pdfRun]
+    | col c => exact setAlpha_sim c.a w
   · cases p with
     | none => exact absurd rfl hp
     | grad i => simp [pdfRun, pdfStep, gOf, shadeOf]
     | col c =>
       simp only [setAlpha]
       split <;> split <;> simp_all [pdfRun, pdfStep, gOf, shadeOf] <;> omega
+
+theorem PSim.pair {a b : PAct ν} {w : PW ν} (h1 : PSim a w []) (h2 : PSim b (a w).1 []) : PSim (PAct.seq [a, b]) w [] := by
+  have h := PSim.cons h1 (PSim.cons h2 (PSim.nil _))
+  simpa using h
+
+theorem setFill_sim (p : Paint) (hp : p ≠ .none) (w : PW ν) : PSim (setFill p) w [] :=
+  PSim.pair (gradAlpha_sim p w) (setFillCore_sim p hp _)
+
+theorem setStroke_sim (p : Paint) (hp : p ≠ .none) (w : PW ν) : PSim (setStroke p) w [] :=
+  PSim.pair (gradAlpha_sim p w) (setStrokeCore_sim p hp _)
 
 theorem setLineWidth_sim (x : ν) (w : PW ν) : PSim (setLineWidth N x) w [] := by
   unfold PSim setLineWidth
@@ -150,44 +172,78 @@ theorem PAct.seq_single (a : PAct ν) (w : PW ν) : (PAct.seq [a] w).1 = (a w).1
 
 /-! ### cache after each Set* (lawful `==`) -/
 
-/-- the paint's alpha is the cached alpha (colours), resp. the cache is opaque (gradients) -/
-def Paint.alphaIs (a : Nat) : Paint → Prop
-  | .col c => c.a = a
-  | .grad _ => a = 255
-  | .none => True
-
-theorem Paint.alphaIs_alpha {a : Nat} {p : Paint} (h : p.alphaIs a) (hp : p ≠ .none) : p.alpha = a := by
-  cases p <;> simp_all [Paint.alphaIs, Paint.alpha]
-
-theorem setFill_c (p : Paint) (hp : p ≠ .none) (w : PW ν) (ha : p.alphaIs w.c.alpha) :
-    (setFill p w).1.c = { w.c with fill := p } := by
+theorem setAlpha_c (a : Nat) (w : PW ν) : (setAlpha a w).1.c = { w.c with alpha := a } := by
   obtain ⟨gs, ps, ⟨al, fl, st, lw, cp, jn, ml, ds, phs⟩⟩ := w
-  unfold setFill
+  unfold setAlpha
   split
+  · rfl
   · rename_i h
-    have := ((Paint.eq_iff _ _).1 h).1
+    have : a = al := by simpa using h
     simp_all
-  · cases p with
-    | none => exact absurd rfl hp
-    | grad i => simp
-    | col c =>
-      simp only [Paint.alphaIs] at ha
-      simp_all [setAlpha]
 
-theorem setStroke_c (p : Paint) (hp : p ≠ .none) (w : PW ν) (ha : p.alphaIs w.c.alpha) :
-    (setStroke p w).1.c = { w.c with stroke := p } := by
-  obtain ⟨gs, ps, ⟨al, fl, st, lw, cp, jn, ml, ds, phs⟩⟩ := w
-  unfold setStroke
-  split
-  · rename_i h
-    have := ((Paint.eq_iff _ _).1 h).1
-    simp_all
-  · cases p with
-    | none => exact absurd rfl hp
-    | grad i => simp
-    | col c =>
-      simp only [Paint.alphaIs] at ha
-      simp_all [setAlpha]
+theorem gradAlpha_c (p : Paint) (w : PW ν) :
+    (gradAlpha p w).1.c = { w.c with alpha := (match p with | .grad _ => 255 | _ => w.c.alpha) } := by
+  cases p with
+  | grad i => simp [gradAlpha, setAlpha_c]
+  | none => simp [gradAlpha, say]
+  | col c => simp [gradAlpha, say]
+
+/-- the cache after SetFill / SetStroke: the paint and ITS alpha (no assumption on the cache before) -/
+theorem setFill_c (p : Paint) (hp : p ≠ .none) (w : PW ν) :
+    (setFill p w).1.c = { w.c with fill := p, alpha := p.alpha } := by
+  obtain ⟨gs0, ps0, ⟨al, fl, st, lw, cp, jn, ml, ds, phs⟩⟩ := w
+  cases p with
+  | none => exact absurd rfl hp
+  | col c =>
+    simp only [setFill, PAct.seq, gradAlpha, say, setFillCore, Paint.alpha]
+    by_cases h : (Paint.col c).eq fl = true
+    · have e := ((Paint.eq_iff _ _).1 h).1
+      subst e
+      simp [h, setAlpha_c]
+    · simp [h, setAlpha_c]
+  | grad i =>
+    simp only [setFill, PAct.seq, gradAlpha, setFillCore, Paint.alpha, setAlpha]
+    by_cases ha : (255 != al) = true
+    · by_cases h : (Paint.grad i).eq fl = true
+      · have e := ((Paint.eq_iff _ _).1 h).1
+        subst e
+        simp [ha, h]
+      · simp [ha, h]
+    · have e0 : 255 = al := by simpa using ha
+      subst e0
+      by_cases h : (Paint.grad i).eq fl = true
+      · have e := ((Paint.eq_iff _ _).1 h).1
+        subst e
+        simp [h]
+      · simp [h]
+
+theorem setStroke_c (p : Paint) (hp : p ≠ .none) (w : PW ν) :
+    (setStroke p w).1.c = { w.c with stroke := p, alpha := p.alpha } := by
+  obtain ⟨gs0, ps0, ⟨al, fl, st, lw, cp, jn, ml, ds, phs⟩⟩ := w
+  cases p with
+  | none => exact absurd rfl hp
+  | col c =>
+    simp only [setStroke, PAct.seq, gradAlpha, say, setStrokeCore, Paint.alpha]
+    by_cases h : (Paint.col c).eq st = true
+    · have e := ((Paint.eq_iff _ _).1 h).1
+      subst e
+      simp [h, setAlpha_c]
+    · simp [h, setAlpha_c]
+  | grad i =>
+    simp only [setStroke, PAct.seq, gradAlpha, setStrokeCore, Paint.alpha, setAlpha]
+    by_cases ha : (255 != al) = true
+    · by_cases h : (Paint.grad i).eq st = true
+      · have e := ((Paint.eq_iff _ _).1 h).1
+        subst e
+        simp [ha, h]
+      · simp [ha, h]
+    · have e0 : 255 = al := by simpa using ha
+      subst e0
+      by_cases h : (Paint.grad i).eq st = true
+      · have e := ((Paint.eq_iff _ _).1 h).1
+        subst e
+        simp [h]
+      · simp [h]
 
 theorem setLineWidth_c (L : Lawful N) (x : ν) (w : PW ν) : (setLineWidth N x w).1.c = { w.c with lw := x } := by
   obtain ⟨gs, ps, ⟨al, fl, st, lw, cp, jn, ml, ds, phs⟩⟩ := w
